@@ -33,6 +33,12 @@ ContactsOppositeSides(st, glen) == \A k \in 3..(Len(st) - 2) :
     Interior(st[k], glen) => st[k][9] * st[k][10] = -1
 \* stations advance strictly from leading to trailing edge
 Monotone(st) == \A k \in 1..(Len(st) - 1) : st[k][11] < st[k + 1][11]
+\* ... and in the sense of the generating camber: the first station lies ahead of the last one, and over the interior of the
+\* camber the coordinate of the closest generating point never goes back by more than the refinement noise
+TrueSense(st, glen) ==
+    /\ st[1][14] < st[Len(st)][14]
+    /\ \A k \in 1..(Len(st) - 1) : (Interior(st[k], glen) /\ Interior(st[k + 1], glen)) => st[k][14] <= st[k + 1][14] + TLaw
+TEdgeTruth == 30000       \* a located edge point against the true end of the generating envelope (3 % chord: gross, catches swapped ends)
 \* centres on the generating camber and radii on the law; beyond the camber ends (inside the end caps) an inscribed
 \* circle is internally tangent to the cap: centre offset and radius defect cancel
 FollowsLaw(st, glen) == \A k \in 1..Len(st) :
